@@ -48,7 +48,75 @@ def r1(ctx, R):
                 flag = st.targets[0].id
                 flag_sets.append((st, conds))
     if flag is None:
-        R.violation("C08.R1", p.short, "skip flag", loc(p, src), f"nothing in the line loop tests the current line against {regions} / {deflines}: declarations in inactive regions are indexed")
+        # direct form: `if line in deflines or any(r[0] <= line <= r[1] for r in regions): continue`
+        direct = None
+        for st in ctx.m.walk_own(p.node):
+            if isinstance(st, ast.If) and st.body and isinstance(st.body[-1], ast.Continue) and not st.orelse and (regions in unparse(st.test) or deflines in unparse(st.test)):
+                direct = st
+        if direct is None:
+            if any(isinstance(n_, ast.Name) and n_.id in (regions, deflines) and isinstance(n_.ctx, ast.Load) for n_ in ctx.m.walk_own(p.node)):
+                R.undecided("C08.R1", p.short, "skip test", loc(p, src), f"{regions} / {deflines} are consulted in a form the rule does not recognise")
+            else:
+                R.violation("C08.R1", p.short, "skip flag", loc(p, src), f"nothing in the line loop tests the current line against {regions} / {deflines}: declarations in inactive regions are indexed")
+            return
+        parts = direct.test.values if isinstance(direct.test, ast.BoolOp) and isinstance(direct.test.op, ast.Or) else [direct.test]
+        line_vars = set()
+        seen_region = seen_def = False
+        for e in parts:
+            if isinstance(e, ast.Compare) and len(e.ops) == 1 and isinstance(e.ops[0], ast.In) and unparse(e.comparators[0]) == deflines:
+                seen_def = True
+                line_vars.add(unparse(e.left))
+            if isinstance(e, ast.Call) and isinstance(e.func, ast.Name) and e.func.id == "any" and e.args and isinstance(e.args[0], (ast.GeneratorExp, ast.ListComp)):
+                ge = e.args[0]
+                if len(ge.generators) == 1 and unparse(ge.generators[0].iter) == regions and isinstance(ge.generators[0].target, ast.Name):
+                    tv = ge.generators[0].target.id
+                    c = ge.elt
+                    lo_ok = hi_ok = False
+                    cmps = c.values if isinstance(c, ast.BoolOp) and isinstance(c.op, ast.And) else [c]
+                    for cc in cmps:
+                        if isinstance(cc, ast.Compare) and len(cc.ops) == 2 and all(isinstance(o, ast.LtE) for o in cc.ops) and unparse(cc.left) == f"{tv}[0]" and unparse(cc.comparators[1]) == f"{tv}[1]":
+                            lo_ok = hi_ok = True
+                            line_vars.add(unparse(cc.comparators[0]))
+                        elif isinstance(cc, ast.Compare) and len(cc.ops) == 1:
+                            l, r, op = unparse(cc.left), unparse(cc.comparators[0]), cc.ops[0]
+                            if (r == f"{tv}[0]" and isinstance(op, ast.GtE)) or (l == f"{tv}[0]" and isinstance(op, ast.LtE)):
+                                lo_ok = True
+                                line_vars.add(l if r.startswith(tv) else r)
+                            if (r == f"{tv}[1]" and isinstance(op, ast.LtE)) or (l == f"{tv}[1]" and isinstance(op, ast.GtE)):
+                                hi_ok = True
+                                line_vars.add(l if r.startswith(tv) else r)
+                    if lo_ok and hi_ok:
+                        seen_region = True
+                        R.ok("C08.R1", p.short, "region test lo <= line <= hi", loc(p, direct), "both ends inclusive (the directive lines themselves are skipped)")
+                    else:
+                        R.violation("C08.R1", p.short, "region test lo <= line <= hi", loc(p, direct), f"the test under which a line is skipped ({unparse(c)}) is not `region[0] <= line <= region[1]`: the first or last line of an inactive region is parsed")
+                        seen_region = True
+        if seen_def:
+            R.ok("C08.R1", p.short, "directive lines skipped", loc(p, direct))
+        else:
+            R.violation("C08.R1", p.short, "directive lines skipped", loc(p, src), f"#define/#undef lines ({deflines}) are handed to the statement readers")
+        if not seen_region:
+            R.violation("C08.R1", p.short, "region test lo <= line <= hi", loc(p, src), f"no test of the current line against the regions in {regions}")
+        ttxt = unparse(direct.test)
+        n = 0
+        for c in calls_in(p.node):
+            if ctx.m.enclosing_func(c) is not p or not (isinstance(c.func, ast.Attribute) and c.func.attr in READERS):
+                continue
+            n += 1
+            fa = F.at(c) or set()
+            k = f"{c.func.attr}(...)"
+            if any(b[0] == "cond" and b[1] == ttxt and b[2] is False for b in fa):
+                args = [unparse(a) for a in c.args]
+                if len(c.args) >= 2 and line_vars and not (set(args) & line_vars) and c.func.attr != "get_fortran_definition":
+                    R.violation("C08.R1", p.short, k, loc(p, c), f"the reader registers entities under `{args[1]}` but the skip test examined {sorted(line_vars)}")
+                else:
+                    R.ok("C08.R1", p.short, k, loc(p, c), "behind the skip test")
+            else:
+                R.violation("C08.R1", p.short, k, loc(p, c), "this statement reader can be reached without passing the skip test: lines of inactive regions are indexed")
+        if n < 4:
+            raise AnalysisError(f"FortranFile.parse: only {n} statement reader calls found")
+        # producer side (shared with the flag form below)
+        _r1_producer(ctx, R, p)
         return
     # region test: inclusive bounds on both ends, define lines by membership
     line_vars = set()
@@ -109,6 +177,10 @@ def r1(ctx, R):
             R.ok("C08.R1", p.short, k, loc(p, c), f"behind `if {flag}: continue`")
     if n < 4:
         raise AnalysisError(f"FortranFile.parse: only {n} statement-reader calls found")
+    _r1_producer(ctx, R, p)
+
+
+def _r1_producer(ctx, R, p):
     # producer side: region bounds and define lines are 1-based line numbers (i + 1 over enumerate from 0)
     f = pp_func(ctx)
     loop = next((s for s in f.node.body if isinstance(s, ast.For) and isinstance(s.iter, ast.Call) and unparse(s.iter.func) == "enumerate"), None)
@@ -465,12 +537,27 @@ def r6(ctx, R):
         if not any(isinstance(c.func, ast.Attribute) and c.func.attr == "get" and unparse(c.func.value) == cache for c in calls_in(f.node)):
             continue
         keyexpr = st.targets[0].slice
-        knames = {n.id for n in ast.walk(keyexpr) if isinstance(n, ast.Name)}
+
+        def closure(names, at):
+            """names plus everything their reaching definitions are computed from (locals bound to
+            copies / tuples of the loop variables, as an inlined helper's parameters are)"""
+            out = set(names)
+            work = list(names)
+            for _ in range(40):
+                if not work:
+                    break
+                nm = work.pop()
+                for v in reaching_defs(ctx, f, at, nm):
+                    if isinstance(v, ast.AST):
+                        for n in ast.walk(v):
+                            if isinstance(n, ast.Name) and isinstance(n.ctx, ast.Load) and n.id not in out:
+                                out.add(n.id)
+                                work.append(n.id)
+            return out
+
+        knames = closure({n.id for n in ast.walk(keyexpr) if isinstance(n, ast.Name)}, st)
         # what the stored value is computed from: reaching defs of the stored name
-        deps = set()
-        for v in reaching_defs(ctx, f, st, st.value.id):
-            if isinstance(v, ast.AST):
-                deps |= {n.id for n in ast.walk(v) if isinstance(n, ast.Name) and isinstance(n.ctx, ast.Load)}
+        deps = closure({st.value.id}, st) - {st.value.id}
         loopvars = set()
         p = ctx.m.parent.get(st)
         while p is not None and not isinstance(p, ast.FunctionDef):
